@@ -203,8 +203,11 @@ def monitors(case, ji, job, real, L):
                     v = S(sym)
                     if v is None:
                         continue
-                    for al in (al1, al2):
-                        if al and al & (al - 1) == 0 and (v - base) % al:
+                    # both alignments hold when one divides the other (always for powers of two, the values the
+                    # property quantifies over); otherwise the one applied last (the per-section entry) holds
+                    compatible = not al1 or not al2 or al1 % al2 == 0 or al2 % al1 == 0
+                    for al in ((al1, al2) if compatible else (al2,)):
+                        if al and (v - base) % al:
                             fail("C09", "%s = 0x%x is not at a multiple of 0x%x from its part's start 0x%x" %
                                  (sym, v, al, base))
         if s["subalign"]:
